@@ -301,6 +301,12 @@ func (uconn *UConn) SetSNI(sni string) {
 		uconn.echCtx.innerHello.serverName = hname
 		return
 	}
+	if uconn.echCtx != nil && uconn.clientHelloBuildStatus != BuildByGoTLS && len(uconn.config.EncryptedClientHelloConfigList) > 0 {
+		// the preset has been applied but nothing marshalled yet: the extension
+		// list already describes the outer hello (public name), and the inner
+		// hello takes Config.ServerName when it is made
+		return
+	}
 	if uconn.echCtx != nil && uconn.clientHelloBuildStatus == BuildByGoTLS && uconn.HandshakeState.Hello != nil {
 		// the hello built by crypto/tls code is split into inner and outer when the
 		// handshake starts: the inner hello is cloned from this one
